@@ -6,7 +6,7 @@ patch="$1"; shift
 REPO=${VERIF_REPO:-/repo}
 cd "${VERIF_DIR:-/verif}"
 if ! git -C "$REPO" apply --check "$patch" 2>/dev/null; then
-  if git -C "$REPO" apply --check --3way "$patch" 2>/dev/null; then :; else echo "RESULT patch=$patch DOES-NOT-APPLY"; exit 3; fi
+  echo "RESULT patch=$patch DOES-NOT-APPLY"; exit 3
 fi
 git -C "$REPO" apply "$patch" || { echo "RESULT patch=$patch APPLY-FAILED"; exit 3; }
 trap 'git -C "$REPO" apply -R "$patch" 2>/dev/null || git -C "$REPO" checkout -- . ; git -C "$REPO" status --short | head -3' EXIT
